@@ -62,6 +62,42 @@ fn content_for(channel: &str, lines: &[String], crlf: u64, final_nl: bool, rng: 
     }
 }
 
+/// Names like GREX_SOMETHING that occur in the binary's own bytes (a program-specific environment variable).
+fn discovered_env_names(binary: &str) -> Vec<String> {
+    let bytes = std::fs::read(binary).unwrap_or_default();
+    let pat = b"GREX_";
+    let mut out: Vec<String> = vec![];
+    let mut i = 0;
+    while i + pat.len() < bytes.len() {
+        // string literals lie back to back in the binary: no word boundary can be required on either side
+        if &bytes[i..i + pat.len()] == pat {
+            let mut j = i + pat.len();
+            while j < bytes.len() && (bytes[j].is_ascii_uppercase() || bytes[j].is_ascii_digit() || bytes[j] == b'_') {
+                j += 1;
+            }
+            if j > i + pat.len() && j - i <= 48 {
+                let name = String::from_utf8_lossy(&bytes[i..j]).to_string();
+                // the next literal may start with a capital letter that got glued on: also try without it
+                if name.len() > 8 {
+                    let shorter = name[..name.len() - 1].trim_end_matches('_').to_string();
+                    if !out.contains(&shorter) {
+                        out.push(shorter);
+                    }
+                }
+                if !out.contains(&name) {
+                    out.push(name);
+                }
+            }
+            i = j;
+        } else {
+            i += 1;
+        }
+    }
+    out.sort();
+    out.truncate(12);
+    out
+}
+
 fn flag_sweep_cfgs(triples: bool) -> Vec<Cfg> {
     let base = Cfg::default();
     let singles: Vec<Box<dyn Fn(&mut Cfg)>> = vec![
@@ -508,6 +544,56 @@ fn sweep_cases(seed: u64, tier: &str, bins: &Binaries, scratch: Option<&str>) ->
             }
         }
     }
+    // (e4) a file name that is not valid UTF-8, a directory literally named `~`, variables whose names the binary itself
+    // mentions next to the program's name, and a small address space (as a CI job or service manager may impose)
+    {
+        let lines = vec!["a1".to_string(), "b,2".to_string()];
+        let content = frame(&lines, 0, true, &mut rng);
+        for ch in ["file", "probe"] {
+            for name_hex in ["636166e92e747874", "ff2e747874", "6e616d65c32e"] {
+                let mut c = if ch == "probe" { make_probe_case(&content, &busy, &mut rng) } else { make_case(ch, &lines, &content, &busy, &mut rng, true) };
+                c.file_name_hex = name_hex.to_string();
+                c.note = format!("sweep/e4 file name that is not UTF-8 ({})", name_hex);
+                out.push(Planned { case: c, stratum: "sweep-file-names" });
+            }
+        }
+        for ch in ["file", "file-via-stdin", "probe"] {
+            let mut c = if ch == "probe" { make_probe_case(&content, &busy, &mut rng) } else { make_case(ch, &lines, &content, &busy, &mut rng, true) };
+            c.file_name = "~/cases.txt".into();
+            c.relative_path = true;
+            c.env = vec![("HOME".into(), "/nonexistent-home".into())];
+            c.note = "sweep/e4 relative path below a directory named ~".into();
+            out.push(Planned { case: c, stratum: "sweep-file-names" });
+        }
+        for name in discovered_env_names(&bins.grex) {
+            for val in ["-r", "--digits --words", "1", "--no-anchors"] {
+                for ch in ["args", "stdin"] {
+                    let l2 = vec!["aaa1".to_string(), "bb22".to_string()];
+                    let cont = frame(&l2, 0, true, &mut rng);
+                    let mut c = make_case(ch, &l2, &cont, &Cfg::default(), &mut rng, true);
+                    c.env = vec![(name.clone(), val.to_string())];
+                    c.note = format!("sweep/e4 variable named in the binary: {}={}", name, val);
+                    out.push(Planned { case: c, stratum: "sweep-discovered-env" });
+                }
+            }
+        }
+        for (k, ch) in CHANNELS.iter().enumerate() {
+            for mb in [64u64, 128] {
+                let l2 = vec!["alpha".to_string(), "beta1".to_string()];
+                if let Some(cont) = content_for(ch, &l2, 0, true, &mut rng) {
+                    let mut c = make_case(ch, &l2, &cont, if k % 2 == 0 { &busy } else { &bare }, &mut rng, true);
+                    c.rlimit_as_mb = mb;
+                    c.note = format!("sweep/e4 address space limited to {} MiB", mb);
+                    out.push(Planned { case: c, stratum: "sweep-address-space-limit" });
+                }
+            }
+        }
+        // unusable input under the same limit: still a clean rejection
+        let mut c = make_case("file", &[], b"", &Cfg::default(), &mut rng, true);
+        c.rlimit_as_mb = 128;
+        c.note = "sweep/e4 empty file, address space limited".into();
+        out.push(Planned { case: c, stratum: "sweep-address-space-limit" });
+    }
     // (f) outside the property, logged and never judged: stdin is a terminal; stdout fails hard
     {
         let mut c = make_case("stdin", &["a".to_string()], b"a\n", &Cfg::default(), &mut rng, true);
@@ -611,6 +697,9 @@ fn random_case(rng: &mut Rng) -> Planned {
             }
             if rng.chance(1, 5) {
                 c.relative_path = true;
+            }
+            if rng.chance(1, 150) && c.stdin.len() + c.file.len() < 4096 {
+                c.rlimit_as_mb = *rng.pick(&[96u64, 160, 256]);
             }
             c.note = "search".into();
             return Planned { case: c, stratum: if hard { "search-hard" } else { "search-benign" } };
@@ -1063,7 +1152,7 @@ fn mode_run(args: &[String]) -> i32 {
         *expect_kinds.entry(ek).or_insert(0) += 1;
         let nontriv = !d.obs.fired.is_empty() || d.obs.reads_r0 + d.obs.reads_rf >= 2;
         if nontriv {
-            let fp = fnv1a(format!("{:?}|{:?}|{:?}|{:?}|{:?}|{:?}|{:?}", d.case.argv, d.case.stdin, d.case.file, d.case.events, d.case.dchunk, d.case.file_mode, (&d.case.env, d.case.tty_out, &d.case.file_name, d.case.stdin_kind, d.case.relative_path)).as_bytes());
+            let fp = fnv1a(format!("{:?}|{:?}|{:?}|{:?}|{:?}|{:?}|{:?}", d.case.argv, d.case.stdin, d.case.file, d.case.events, d.case.dchunk, d.case.file_mode, (&d.case.env, d.case.tty_out, &d.case.file_name, d.case.stdin_kind, d.case.relative_path, &d.case.file_name_hex, d.case.rlimit_as_mb)).as_bytes());
             nontrivial.insert(fp);
         }
         // reach probes
